@@ -27,7 +27,9 @@ MANIFEST = dict(
     text="Theorems in lean/PdshVerif/Props/C08.lean about the model Dsh/Exit.lean: without -S/-k exit 0, refused "
          "arguments exit 1, -S = max of the remote codes raised to 254 (order independent), 0 iff every command ran "
          "and succeeded, marker extraction, abnormal termination non-zero, -k any failure non-zero; each proved for "
-         "the repaired variant with a kernel-checked counterexample for the unchanged code where that is false. The "
+         "the repaired variant with a kernel-checked counterexample for the unchanged code where that is false; the "
+         "repaired model refines the specification for both status channels, and end to end through the relay model "
+         "for every chunking of every host's stdout. The "
          "model is executed against the real _extract_rc, the real dsh() on a scripted transport, the real "
          "exec_destroy and the real binary; the real exit statuses are judged by the specification.",
     design_ref="DESIGN.md section 5 C08, section 6 D7 D8 D9 F08-CANCELED",
@@ -357,7 +359,7 @@ def run_cancel(pdsh, helper, nhosts):
 # --------------------------------------------------------------------------- main
 def run(ctx):
     rng = ctx.rng
-    ctx.gen_consts(["dsh"])
+    ctx.gen_consts(["dsh", "relay", "cbuf"])      # relay, cbuf: the end-to-end theorems go through Relay/Model.lean
     ctx.lean_build([PROPS, "pdshmodel"])
     ctx.audit(PROPS)
     magic = rc_magic()
